@@ -66,6 +66,7 @@ class Profile:
         self.self_update_p = 0.25  # ... that a numeric assignment is  f := f +/- c
         self.neg_quant_bias = False  # negations sit directly on quantifiers, and a problem uses ONE quantifier kind
         self.static_p = 0.0  # probability that a fluent with parameters is static (never an effect target)
+        self.rational_divisors = False
         self.param_name_pool = None  # names for action parameters AND (half of the) bound variables: capture-prone
         for k, v in kw.items():
             if not hasattr(self, k):
@@ -400,6 +401,9 @@ class Gen:
             return ["-", self.num_expr(scope, depth - 1, want_int), self.num_expr(scope, depth - 1, want_int)]
         if k < 9 or want_int or not self.p.division:
             return ["*", self.num_expr(scope, depth - 1, want_int), self.num_expr(scope, depth - 1, want_int)]
+        if self.p.rational_divisors and self.b(0.4):
+            # a non-integer constant divisor: x / (1/2) must not be read as (x / 1) / 2
+            return ["/", self.num_expr(scope, depth - 1), ["r", self.pick(["1/2", "5/2", "-1/2", "1/4"])]]
         d = self.pick([2, -2, 4, 5, -1] if self.p.decimal_only else [2, -2, 3, 4, -1])
         return ["/", self.num_expr(scope, depth - 1), ["i", d]]
 
